@@ -16,7 +16,8 @@ JPts  == {<<12, 11>>, <<11, 12>>, <<13, 12>>}
 \* pin catalogue: <<class, x offset, y offset, inside, dirs, exclusive, proportional>>: proportional offsets in quarters of the shape;
 \* absolute offsets in units from the top-left corner, 0 = ATTACH_POS_MIN_OFFSET, -1 = ATTACH_POS_MAX_OFFSET (the far edge, whatever the size)
 PinCat == {<<1, 0, 2, 0, 4, 1, 1>>, <<1, 4, 2, 0, 8, 1, 1>>, <<1, 2, 0, 0, 1, 0, 1>>, <<2, 2, 4, 0, 2, 0, 1>>, <<2, 2, 2, 0, 15, 0, 1>>, <<1, 2, 2, 1, 15, 1, 1>>,
-           <<1, -1, 4, 0, 8, 0, 0>>, <<2, 4, -1, 1, 2, 0, 0>>, <<2, 0, 3, 0, 4, 1, 0>>}
+           <<1, -1, 4, 0, 8, 0, 0>>, <<2, 4, -1, 1, 2, 0, 0>>, <<2, 0, 3, 0, 4, 1, 0>>,
+           <<1, 4, 2, 1, 8, 1, 1>>}      \* (the last one differs from the second only in its inside offset: two pins of one class at one place on the side)
 Moves == {<<2, 0>>, <<0, -2>>, <<-2, 2>>}
 VARIABLES shp, rect, pins, jn, jpos, cn, cend, txn, hreg, fresh, hist
 vars == <<shp, rect, pins, jn, jpos, cn, cend, txn, hreg, fresh, hist>>
